@@ -199,6 +199,31 @@ def build(tier="quick", seed=0):
     def run_canary(tier):
         return prove_paths("C08.canary", lambda: run_selector("Selector", "r.n <= 5"), lambda p: falsy(p.value), witness_of("r.n <= 5", "interp"))
 
+    # a stream that mixes record types, also two generations of ONE type name: a field missing from an earlier record says nothing about later records
+    for eng in ("Selector", "CompiledSelector"):
+        for expr in ("r.pid == 5", "r.pid >= 5", "r.pid in (5, 6)", "r.pid != 7 and r.nm == 'x'"):
+            name = f"C08.mixed[{eng}, {expr}, same-name generations]"
+
+            def run(tier, eng=eng, expr=expr, name=name):
+                def th():
+                    Old = it.call(RD, ["c08/event", [("string", "nm")]], {})
+                    New = it.call(RD, ["c08/event", [("string", "nm"), ("varint", "pid")]], {})
+                    Other = it.call(RD, ["c08/other", [("varint", "pid")]], {})
+                    recs = [it.call(Old, [], {"nm": "x"}), it.call(New, [], {"nm": "x", "pid": 5}), it.call(Old, [], {"nm": "x"}), it.call(Other, [], {"pid": 5}), it.call(New, [], {"nm": "x", "pid": 5})]
+                    s = it.call(sel.g[eng], [expr], {})
+                    out = []
+                    for r in recs:
+                        try:
+                            out.append(bool(it.truth(it.call(it.getattr_(s, "match"), [r], {}))))
+                        except PyRaise as e:
+                            out.append("raise " + e.cls_name)
+                    return out
+
+                want = [False, True, False, ("nm" not in expr), True]
+                return prove_paths(name, th, lambda p: (p.value == want, f"{expr!r} over old / new / old / other / new records: {p.value}, expected {want}"), lambda m, p: {"expr": expr, "engine": eng})
+
+            pack.add(Obligation(name, run, replay=lambda w: {"call": "c08_mixed", "args": {"expr": w.get("expr"), "engine": w.get("engine")}}, functions=fu, mode="one selector object over a concrete mixed sequence"))
+
     pack.add(Obligation("C08.canary", run_canary, kind="canary"))
 
     # ---- engine vs CPython: the same expressions evaluated concretely by pyvc and natively by the real code
